@@ -90,7 +90,7 @@ pub fn tables<F: BoolExt>(args: &Args) {
     let seed = args.num("seed", 1);
     let mut rng = Rng::new(seed);
     let mut out = TraceOut::new(&dir, &format!("tables-{}", F::KIND), 4000);
-    let sample_every = args.num("sample", if thorough { 97 } else { 211 }) as usize;
+    let sample_every = args.num("sample", if thorough { 401 } else { 211 }) as usize;
     let groups = args.get("groups", "bool,quant,zbdd");
     let grp = |g: &str| groups.split(',').any(|x| x == g);
 
@@ -1105,6 +1105,53 @@ pub fn reorder<F: BoolExt>(args: &Args) {
             s.reorder(req);
             cases += 1;
             post_reorder_activity(&mut s, &mut rng, 6);
+        }
+    }
+    // n = 3 sparse: only one or two functions alive (nodes that a level swap
+    // needs do not exist yet), every source order x every request
+    for si in 0..6usize {
+        for req in &reqs3 {
+            for rep in 0..(if thorough { 4 } else { 2 }) {
+                if !thorough && rng.chance(1, 2) {
+                    continue;
+                }
+                let mut s: Session<F> = Session::new(&mut out, 4096, 64, 1);
+                s.add_vars(3);
+                s.reorder(&perms3[si]);
+                let vars: Vec<Slot> = (0..3).filter_map(|v| s.var(v)).collect();
+                if vars.len() != 3 {
+                    continue;
+                }
+                // one or two functions of two/three variables; the plain
+                // variables are dropped again
+                let mut keep = Vec::new();
+                for _ in 0..(1 + rep % 2) {
+                    let a = vars[rng.below(3)];
+                    let b = vars[rng.below(3)];
+                    if let Some(x) = s.bin(BIN_OPS[rng.below(8)], a, b) {
+                        if rng.chance(1, 2) {
+                            let c = vars[rng.below(3)];
+                            if let Some(y) = s.bin(BIN_OPS[rng.below(8)], x, c) {
+                                s.drop_h(x);
+                                keep.push(y);
+                                continue;
+                            }
+                        }
+                        keep.push(x);
+                    }
+                }
+                for &v in &vars {
+                    s.drop_h(v);
+                }
+                s.gc();
+                s.snap();
+                s.reorder(req);
+                cases += 1;
+                s.snap();
+                s.obs();
+                s.gc();
+                s.snap();
+            }
         }
     }
     // n = 4 (all sources x all requests in thorough, a sample in quick) and
